@@ -234,7 +234,7 @@ def replay(case):
 def main(ctx):
     bins = ctx.build(["zwdrv"])
     thorough = ctx.tier == "thorough"
-    ndies = 7 if thorough else 6
+    ndies = 8 if thorough else 6
     m = 512
     # every shape is written in all 8 (version, offset size) configurations in both tiers
     alen = 4 if thorough else 3
